@@ -878,7 +878,7 @@ func c02(run *ev.Run, tier string) {
 			}
 			if p := buildDecode(s, f, i); p != nil {
 				checkMeta(metaCmp{run, f, i, &cmps}, s, v, p, expectArch(table, f, s.Arch), c)
-				if f == "deb" && i%10 == 0 && have("dpkg-deb") {
+				if f == "deb" && (i%10 == 0 || tier == "thorough" && i%2 == 0) && have("dpkg-deb") {
 					dpkgFieldCross(run, i, res2(s, f), p)
 				}
 			}
